@@ -16,6 +16,7 @@ import (
 type Node struct {
 	Op     string `json:"op"`
 	Xs     []int  `json:"xs,omitempty"` // slice leaf / from value / pfrom key,value
+	Spare  int    `json:"spare,omitempty"` // slice leaf: the source is a window buf[:len] of a buffer with this much capacity behind it
 	F      int    `json:"f,omitempty"`  // function family member
 	A      int    `json:"a,omitempty"`  // function parameters
 	B      int    `json:"b,omitempty"`
@@ -111,12 +112,16 @@ func (b *builder) S(n *Node, shift int) seq.Seq[int] {
 	case "nil":
 		return nil
 	case "slice":
-		xs := make([]int, len(n.Xs))
-		for i, x := range n.Xs {
-			xs[i] = x + shift
+		// the source is a window of a larger buffer; the capacity behind it holds sentinels that must survive
+		buf := make([]int, len(n.Xs)+n.Spare)
+		for i := range buf {
+			buf[i] = -777 - i
 		}
-		b.sources = append(b.sources, [2][]int{xs, append([]int{}, xs...)})
-		return seq.FromSlice(xs)
+		for i, x := range n.Xs {
+			buf[i] = x + shift
+		}
+		b.sources = append(b.sources, [2][]int{buf, append([]int{}, buf...)})
+		return seq.FromSlice(buf[:len(n.Xs)])
 	case "from":
 		return seq.From(n.Xs[0] + shift)
 	case "takeWhile":
